@@ -222,15 +222,18 @@ func (ex *Exec) frameObligations(fr *Frame, fc *FuncContract, final *State, entr
 			for _, k := range ex.typeKeys(&env, m) {
 				wholeKeys[k.key] = true
 			}
+		case ModAllMem:
+			for _, k := range ex.memKeys(&env, m) {
+				wholeKeys[k.key] = true
+			}
 		case ModAll:
 			all = true
 		case ModField, ModAllFields:
-			base := ex.eval(&env, m.Base)
 			var loc *Loc
 			if m.Kind == ModField {
-				loc = ex.fieldLoc(base, m.Field)
+				loc = ex.fieldLocE(&env, m.Base, m.Field)
 			} else {
-				loc = ex.locOf(base)
+				loc = ex.locOf(ex.eval(&env, m.Base))
 			}
 			n := len(layoutOf(loc.T).Leaves)
 			for j := 0; j < n; j++ {
@@ -347,8 +350,7 @@ func (ex *Exec) applyGhost(env *Env, fc *FuncContract, st *State) {
 		}
 		oldEnv := *env
 		oldEnv.st = env.old
-		base := ex.eval(&oldEnv, g.Target.Base)
-		loc := ex.fieldLoc(base, g.Target.Field)
+		loc := ex.fieldLocE(&oldEnv, g.Target.Base, g.Target.Field)
 		v := ex.eval(env, g.Value)
 		if v.Const != nil {
 			v = coerce(v, loc.T)
